@@ -4,6 +4,7 @@ package c05
 import (
 	"os"
 	"testing"
+	"verifharness/internal/watchdog"
 
 	"pgregory.net/rapid"
 
@@ -23,34 +24,34 @@ func TestC05LockState(t *testing.T) {
 		maxSteps = 60
 	}
 	rapid.Check(t, func(t *rapid.T) {
-		c := g.Begin()
-		defer c.End()
-		m := mgrsim.New(t, "C05", c)
-		defer m.Close()
-		m.CheckWipe = true
-		maxPopulated := 0
-		m.Run(t, weights, 5, maxSteps, 0, func(op string) {
-			m.CheckAllIssued("after " + op)
-			m.CheckAccessors("after " + op)
-			if !m.Locked && !m.WatchOnly {
-				if n := m.CountPopulated(); n > maxPopulated {
-					maxPopulated = n
+		watchdog.Case(t, "C05", g, func(c *evid.Case) {
+			m := mgrsim.New(t, "C05", c)
+			defer m.Close()
+			m.CheckWipe = true
+			maxPopulated := 0
+			m.Run(t, weights, 5, maxSteps, 0, func(op string) {
+				m.CheckAllIssued("after " + op)
+				m.CheckAccessors("after " + op)
+				if !m.Locked && !m.WatchOnly {
+					if n := m.CountPopulated(); n > maxPopulated {
+						maxPopulated = n
+					}
+				}
+			})
+			g.Count("max-populated-cleartext-buffers-sum", int64(maxPopulated))
+			for _, k := range []string{"lock", "unlock", "wrong-unlock", "wrong-unlock-while-unlocked", "passphrase-change", "restart", "lock-after-privkey-access",
+				"privkey-ok", "privkey-refused", "derive-cache-ok", "derive-cache-refused", "import-refused-locked", "new-account-refused-locked",
+				"new-scope-refused-locked", "wipe-checked", "imported-account", "import-key", "import-script"} {
+				if m.N[k] > 0 {
+					c.Class(k)
 				}
 			}
-		})
-		g.Count("max-populated-cleartext-buffers-sum", int64(maxPopulated))
-		for _, k := range []string{"lock", "unlock", "wrong-unlock", "wrong-unlock-while-unlocked", "passphrase-change", "restart", "lock-after-privkey-access",
-			"privkey-ok", "privkey-refused", "derive-cache-ok", "derive-cache-refused", "import-refused-locked", "new-account-refused-locked",
-			"new-scope-refused-locked", "wipe-checked", "imported-account", "import-key", "import-script"} {
-			if m.N[k] > 0 {
-				c.Class(k)
+			if maxPopulated >= 4 {
+				c.Class("wipe-check-saw-populated-buffers")
 			}
-		}
-		if maxPopulated >= 4 {
-			c.Class("wipe-check-saw-populated-buffers")
-		}
-		if m.N["lock-after-privkey-access"] > 0 && m.N["wrong-unlock"] > 0 && (m.N["passphrase-change"] > 0 || m.N["restart"] > 0) {
-			c.NonTrivial()
-		}
+			if m.N["lock-after-privkey-access"] > 0 && m.N["wrong-unlock"] > 0 && (m.N["passphrase-change"] > 0 || m.N["restart"] > 0) {
+				c.NonTrivial()
+			}
+		})
 	})
 }
